@@ -166,7 +166,7 @@ def dco_tie(ctx, src, work):
         elif n.op == 's':
             par = tuple(int(x) for x in par)
         got.append((n.op, par, tuple(a.name for a in n.args), tuple(d.name for d in n.dests)))
-    if sorted(want, key=repr) != sorted(got, key=repr):
+    if sorted(set(want), key=repr) != sorted(set(got), key=repr):      # Block.logic is a set of value-compared tuples
         ctx.dco_bad = getattr(ctx, 'dco_bad', 0) + 1
         if not getattr(ctx, 'dco_first', None):
             only_m = [x for x in want if x not in got][:2]
@@ -236,6 +236,42 @@ def check_seq(ctx, label, src, seq, steps, memmap_by_id, replay0):
                           culprit, '>'.join(seq), label, mm[0], mm[1], mm[2], mm[3]), dict(replay, mismatch=mm))
         return False
     return True
+
+
+def failed_pass_keeps_working_block(ctx):
+    """a gate-basis pass refuses a block outside its precondition (documented PyrtlError): afterwards the working block is
+    still the one the user was working on, so a later pass without `block=` acts on that one"""
+    rng = ctx.rng
+    for k in range(ctx.n(4, 20)):
+        pyrtl.reset_working_block()
+        w_blk = pyrtl.working_block()
+        a, b_, c = Input(2, 'a'), Input(2, 'b'), Input(2, 'c')
+        o = Output(6, 'o')
+        o <<= pyrtl.concat(a, b_, c)
+        other = pyrtl.Block()
+        with pyrtl.set_working_block(other, no_sanity_check=True):
+            x, y = Input(3, 'x'), Input(3, 'y')
+            s_ = Output(4, 's')
+            s_ <<= (x + y) if rng.random() < 0.5 else (x - y)
+        pname = rng.choice(sorted(GATE_PASSES))
+        try:
+            GATE_PASSES[pname](other)
+            ctx.count('failed-pass', 'accepted')      # (would be a C09 precondition matter, not this sub-check's)
+        except pyrtl.PyrtlError:
+            ctx.count('failed-pass', 'refused')
+        except Exception as e:  # noqa
+            ctx.violation('%s-raises:%s' % (pname, type(e).__name__), '%s on a word-level block raised %s' % (pname, type(e).__name__), {'kind': 'failed-pass'})
+            continue
+        ctx.evaluations += 1
+        if pyrtl.working_block() is not w_blk:
+            ctx.violation('%s-working-block-changed' % pname, 'after %s(block=B) refused B (PyrtlError), the working block is no longer the block '
+                          'the user was working on' % pname, {'kind': 'failed-pass', 'pass': pname})
+            pyrtl.set_working_block(w_blk, no_sanity_check=True)
+            continue
+        pyrtl.two_way_concat()
+        if any(n.op == 'c' and len(n.args) > 2 for n in w_blk.logic):
+            ctx.violation('two_way_concat-postcondition', 'two_way_concat() after a refused %s(block=B) left a 3-operand concat in the working block' % pname,
+                          {'kind': 'failed-pass', 'pass': pname})
 
 
 def main(ctx):
@@ -322,6 +358,7 @@ def main(ctx):
         ctx.sample({'design': desc, 'sequences': [list(s[2]) for s in seqs[:6]]})
         if len(ctx.violations) >= 6:
             break
+    failed_pass_keeps_working_block(ctx)
     tn, tb, tw = getattr(ctx, 'tie_n', 0), getattr(ctx, 'tie_bad', 0), getattr(ctx, 'tie_notwf', 0)
     tt = getattr(ctx, 'tie_nottopo', 0)
     ctx.oblige('model:the lowered schedule is a dependency order of the lowered block (isTopo, every tested block)', tt == 0,
